@@ -123,6 +123,41 @@ theorem getTopicProducers_ok (w : World) (topic : String) : ∃ r, getTopicProdu
     split <;> exact ⟨_, rfl⟩
   · exact ⟨_, rfl⟩
 
+theorem lookupdTopicProducers_ok (ls : List Lookupd) : ∃ r, lookupdTopicProducers Fixes.all ls = .ok r := by
+  obtain ⟨⟨ps, failed⟩, h⟩ := lookupdTopicProducersGo_ok ls [] 0
+  unfold lookupdTopicProducers
+  simp only [h]
+  split <;> exact ⟨_, rfl⟩
+
+theorem inactiveStep_ok (w : World) (t : String) : ∃ r, inactiveStep Fixes.all w t = .ok r := by
+  unfold inactiveStep
+  obtain ⟨r, h⟩ := lookupdTopicProducers_ok (lookupdsFor w t)
+  simp only [h]
+  cases r with
+  | allFailed => exact ⟨_, rfl⟩
+  | got ps f1 =>
+    simp only []
+    split
+    · exact ⟨_, rfl⟩
+    · split <;> exact ⟨_, rfl⟩
+
+theorem inactiveGo_ok (w : World) (ts : List String) : ∃ r, inactiveGo Fixes.all w ts = .ok r := by
+  induction ts with
+  | nil => exact ⟨_, rfl⟩
+  | cons t rest ih =>
+    unfold inactiveGo
+    obtain ⟨r, h⟩ := inactiveStep_ok w t
+    obtain ⟨r2, h2⟩ := ih
+    simp only [h]
+    cases r with
+    | none => exact ⟨_, rfl⟩
+    | some x =>
+      obtain ⟨c, wn⟩ := x
+      simp only [h2]
+      cases r2 with
+      | none => exact ⟨_, rfl⟩
+      | some y => exact ⟨_, rfl⟩
+
 theorem chanAgg_add_ok (c : ChanAgg) (a : ChanNode) : ∃ r, c.add Fixes.all a = .ok r := by
   unfold ChanAgg.add
   simp only [all_nilE2e, Bool.not_true, Bool.and_false, Bool.false_eq_true, if_false]
@@ -414,5 +449,17 @@ theorem view_ok (w : World) (req : Request) :
       | got tm f2 =>
         obtain ⟨ts, m⟩ := tm
         exact ⟨_, rfl, by simp⟩
+  | topicsInactive =>
+    simp only [view, topicsInactiveView]
+    split
+    · split <;> exact ⟨_, rfl, by simp⟩
+    · split
+      · exact ⟨_, rfl, by simp⟩
+      · rename_i ts f _
+        obtain ⟨r, h⟩ := inactiveGo_ok w ts
+        simp only [h]
+        cases r with
+        | none => exact ⟨_, rfl, by simp⟩
+        | some x => exact ⟨_, rfl, by simp⟩
 
 end Nsq.Proofs.AggregateSafe
